@@ -271,6 +271,8 @@ fn op_ranges(case: &Value, image: &[u8], env: &mut Env, out: &mut Obj) {
                 "typed_u16" => 2,
                 "typed_u32" => 4,
                 "typed_u64" => 8,
+                "typed_a16x3" | "typed_a8x6" => 6,
+                "typed_a32x2" => 8,
                 _ => len,
             };
             let start = usize::from(word) * 2;
@@ -297,7 +299,24 @@ fn op_ranges(case: &Value, image: &[u8], env: &mut Env, out: &mut Obj) {
                 }
             }};
         }
+        macro_rules! typed_array {
+            ($t:ty, $n:literal) => {{
+                match env.run(sd.eeprom_read::<[$t; $n]>(md, word)) {
+                    Phase::Done(Ok(v)) => {
+                        let b: Vec<u8> = v.iter().flat_map(|x| x.to_le_bytes()).collect();
+                        rj.insert("result".into(), json!("ok"));
+                        rj.insert("n".into(), json!(b.len()));
+                        rj.insert("data".into(), bytes(&b));
+                    }
+                    Phase::Done(Err(e)) => put_error(&mut rj, "", &e),
+                    other => put_failure(&mut rj, "", &other),
+                }
+            }};
+        }
         match via {
+            "typed_a16x3" => typed_array!(u16, 3),
+            "typed_a32x2" => typed_array!(u32, 2),
+            "typed_a8x6" => typed_array!(u8, 6),
             "typed_u8" => typed!(u8),
             "typed_u16" => typed!(u16),
             "typed_u32" => typed!(u32),
@@ -319,7 +338,7 @@ fn op_ranges(case: &Value, image: &[u8], env: &mut Env, out: &mut Obj) {
             }
             _ => {
                 rj.insert("result".into(), json!("unsupported"));
-                rj.insert("why".into(), json!("via must be raw or typed_u8/u16/u32/u64"));
+                rj.insert("why".into(), json!("via must be raw, typed_u8/u16/u32/u64 or typed_a16x3/a32x2/a8x6"));
             }
         }
         // the SII register traffic of this read (bounded)
